@@ -32,20 +32,81 @@ fn is_idchar_nopct(b: u8) -> bool {
 fn scan(s: &str, pred: impl Fn(u8) -> bool) -> Option<&'static str> {
   let b = s.as_bytes();
   let mut i = 0;
+  let mut after_pct = false;
   while i < b.len() {
     if b[i] == b'%' {
       if i + 2 < b.len() && b[i + 1].is_ascii_hexdigit() && b[i + 2].is_ascii_hexdigit() {
         i += 3;
+        after_pct = true;
         continue;
       }
-      return Some("bad-pct");
+      return Some(if after_pct { "after-pct" } else { "bad-pct" });
     }
     if !pred(b[i]) {
-      return Some("bad-char");
+      return Some(if after_pct { "after-pct" } else { "bad-char" });
     }
+    after_pct = false;
     i += 1;
   }
   None
+}
+
+/// true when the first '/', '?' or '#' of `s` directly follows a well-formed %XY triple.
+fn delim_after_pct(s: &str) -> bool {
+  let b = s.as_bytes();
+  match b.iter().position(|c| matches!(c, b'/' | b'?' | b'#')) {
+    Some(i) if i >= 3 => b[i - 3] == b'%' && b[i - 2].is_ascii_hexdigit() && b[i - 1].is_ascii_hexdigit(),
+    _ => false,
+  }
+}
+/// Root-cause class of a printed DID URL that does not survive re-parsing.
+fn reparse_class(s: &str) -> &'static str {
+  let b = s.as_bytes();
+  for i in 0..b.len() {
+    if b[i] == b'%' && i + 2 < b.len() && b[i + 1].is_ascii_hexdigit() && b[i + 2].is_ascii_hexdigit() {
+      if i + 3 == b.len() || matches!(b[i + 3], b'/' | b'?' | b'#') {
+        return "pct-before-delimiter";
+      }
+    }
+  }
+  if s.contains("??") {
+    return "double-question-mark";
+  }
+  "other"
+}
+/// How `out` was derived from `inp` when DIDUrl::parse(inp).to_string() == out != inp.
+fn differs_class(inp: &str, out: &str) -> String {
+  let t_dq = |x: &str| x.replacen("??", "?", 1);
+  let t_eq = |x: &str| {
+    if let Some(i) = x.find("?#") {
+      format!("{}{}", &x[..i], &x[i + 1..])
+    } else if let Some(y) = x.strip_suffix('?') {
+      y.to_string()
+    } else {
+      x.to_string()
+    }
+  };
+  let t_ef = |x: &str| x.strip_suffix('#').unwrap_or(x).to_string();
+  for mask in 1u8..8 {
+    let mut x = inp.to_string();
+    let mut names = Vec::new();
+    if mask & 1 != 0 {
+      x = t_dq(&x);
+      names.push("double-question-mark");
+    }
+    if mask & 4 != 0 {
+      x = t_ef(&x);
+      names.push("empty-fragment-dropped");
+    }
+    if mask & 2 != 0 {
+      x = t_eq(&x);
+      names.push("empty-query-dropped");
+    }
+    if x == out {
+      return names.join("+");
+    }
+  }
+  "other".to_string()
 }
 
 fn method_name_ok(s: &str) -> bool {
@@ -171,6 +232,18 @@ fn snap_did(d: &CoreDID) -> Result<DidSnap, PanicRec> {
   })
 }
 
+/// Library decomposition of `u` equals the harness's own split of the valid DID URL `s`.
+fn url_matches_ref(u: &DIDUrl, s: &str) -> bool {
+  let Ok(sn) = snap_url(u) else { return false };
+  let (did, path, q, f) = ref_split(s);
+  sn.s == s
+    && sn.did == did
+    && format!("did:{}:{}", sn.method, sn.method_id) == did
+    && sn.path.as_deref().unwrap_or("") == path
+    && sn.query.as_deref() == q
+    && sn.fragment.as_deref() == f
+}
+
 impl Ctx {
   /// Violation with a per-signature cap on the (expensive) description/case construction.
   fn viol(&mut self, sig: &str, mk: impl FnOnce() -> (String, Value)) {
@@ -184,7 +257,20 @@ impl Ctx {
     }
   }
   fn panic(&mut self, op: &str, input: &str, p: &PanicRec) {
-    let sig = format!("panic:{}@{}", op, p.file_only());
+    let class = if op.contains("::set_") {
+      "set"
+    } else if op.contains("join") {
+      "join"
+    } else if op.contains("accessors") || op.contains("serialize") || op.contains("hash") || op.contains("eq/cmp") || op.contains("->") {
+      "access"
+    } else if op.contains("::jwk") {
+      "jwk"
+    } else if op.starts_with("pool") {
+      "pool"
+    } else {
+      "parse"
+    };
+    let sig = format!("panic:{}@{}", class, p.file_only());
     let (m, l) = (p.msg.clone(), p.loc());
     self.viol(&sig, || (format!("{} panicked on {:?}: {} at {}", op, input, m, l), json!({"op":op,"input":input,"panic":m,"at":l})));
   }
@@ -221,7 +307,8 @@ impl Ctx {
       return false;
     }
     if sn.s.contains(['/', '?', '#']) {
-      self.viol(&format!("url-part-in-plain-did:{}", tag), || {
+      let sub = if delim_after_pct(&sn.s) { "after-pct:" } else { "" };
+      self.viol(&format!("url-part-in-plain-did:{}{}", sub, tag), || {
         (format!("plain DID value {:?} of type {} carries a path, query or fragment (method_id()={:?})", sn.s, ty, sn.method_id), case(&sn))
       });
       return false;
@@ -239,8 +326,12 @@ impl Ctx {
       let cls = if sn.method.is_empty() { "empty" } else { "bad-char" };
       self.viol(&format!("method-name-not-abnf:{}:{}", cls, tag), || (format!("{:?}: method name {:?} is not 1*(%x61-7A / DIGIT)", sn.s, sn.method), case(&sn)));
     }
-    if let Some(cls) = method_id_class(&sn.method_id) {
+    if let Some(mut cls) = method_id_class(&sn.method_id) {
       clean = false;
+      if cls == "after-pct" && origin.starts_with("@set_") {
+        // the setters validate with CoreDID::valid_method_id, not with the parser that skips a character after an escape
+        cls = method_id_class(sn.method_id.rsplit_once('%').map(|(_, t)| t).map(|t| &sn.method_id[sn.method_id.len() - t.len() - 1..]).unwrap_or("")).filter(|c| *c != "after-pct").unwrap_or("bad-char");
+      }
       self.viol(&format!("method-id-not-abnf:{}:{}", cls, tag), || {
         (format!("{:?}: method-specific-id {:?} violates `*( *idchar \":\" ) 1*idchar` ({})", sn.s, sn.method_id, cls), case(&sn))
       });
@@ -268,16 +359,7 @@ impl Ctx {
     }
     if let Some(inp) = input {
       if sn.s != inp {
-        let (_, _, q, f) = ref_split(inp);
-        let cls = if q.map_or(false, |q| q.starts_with('?')) {
-          "double-question-mark"
-        } else if q == Some("") {
-          "empty-query-dropped"
-        } else if f == Some("") {
-          "empty-fragment-dropped"
-        } else {
-          "other"
-        };
+        let cls = differs_class(inp, &sn.s);
         self.viol(&format!("string-form-differs:{}:{}", cls, tag), || (format!("DIDUrl::parse({:?}).to_string() == {:?}", inp, sn.s), case(&sn)));
         return false;
       }
@@ -311,4 +393,1016 @@ impl Ctx {
     }
     clean
   }
+}
+
+// ------------------------------------------------------------------------------------------
+// Cases
+// ------------------------------------------------------------------------------------------
+
+fn shape(s: &str) -> String {
+  let mut out = String::new();
+  let mut last = '\0';
+  for c in s.chars() {
+    let k = match c {
+      'a'..='z' | 'A'..='Z' | '0'..='9' => 'x',
+      '.' | '-' | '_' | '~' => '.',
+      ':' | '%' | '/' | '?' | '#' => c,
+      c if c.is_whitespace() || c.is_control() => '_',
+      c if c.is_ascii() => '!',
+      _ => 'u',
+    };
+    if k == 'x' && last == 'x' {
+      continue;
+    }
+    last = k;
+    out.push(k);
+    if out.len() >= 5 {
+      break;
+    }
+  }
+  out
+}
+
+impl Ctx {
+  /// One input string through every construction path of CoreDID and DIDUrl.
+  fn case_string(&mut self, fam: &str, s: &str) {
+    self.rep.eval();
+    let rv_did = ref_valid_did(s);
+    let rv_url = ref_valid_did_url(s);
+    if rv_did {
+      self.rep.inc("ref_valid_did");
+    }
+    if rv_url {
+      self.rep.inc("ref_valid_did_url");
+    }
+
+    // ---- CoreDID
+    let mut core_ok = false;
+    let mut core_clean: Option<CoreDID> = None;
+    let main = match catch(|| CoreDID::parse(s)) {
+      Err(p) => {
+        self.panic("CoreDID::parse", s, &p);
+        None
+      }
+      Ok(Err(_)) => {
+        self.rep.inc("core_rejected");
+        if rv_did {
+          self.rep.inc("core_rejected_ref_valid");
+        }
+        None
+      }
+      Ok(Ok(d)) => {
+        self.rep.inc("core_accepted");
+        core_ok = true;
+        if self.check_did("CoreDID", "", Some(s), &d) {
+          self.rep.inc("core_accepted_clean");
+          match catch(|| serde_json::to_value(&d)) {
+            Ok(Ok(Value::String(j))) if j == s => {}
+            Ok(other) => self.viol("serde-form-differs:CoreDID", || (format!("serialising CoreDID {:?} gives {:?}", s, other.map_err(|e| e.to_string())), json!({"input":s}))),
+            Err(p) => self.panic("CoreDID-serialize", s, &p),
+          }
+          core_clean = Some(d.clone());
+        }
+        Some(d)
+      }
+    };
+    type Alt<T> = (&'static str, fn(&str) -> Result<T, String>);
+    let alts: [Alt<CoreDID>; 5] = [
+      ("from_str", |s| s.parse::<CoreDID>().map_err(|e| e.to_string())),
+      ("try_from_str", |s| CoreDID::try_from(s).map_err(|e| e.to_string())),
+      ("try_from_string", |s| CoreDID::try_from(s.to_string()).map_err(|e| e.to_string())),
+      ("try_from_base", |s| BaseDIDUrl::parse(s).map_err(|e| format!("{:?}", e)).and_then(|b| CoreDID::try_from(b).map_err(|e| e.to_string()))),
+      ("serde", |s| serde_json::from_value::<CoreDID>(Value::String(s.to_string())).map_err(|e| e.to_string())),
+    ];
+    for (name, f) in &alts {
+      match catch(|| f(s)) {
+        Err(p) => self.panic(&format!("CoreDID::{}", name), s, &p),
+        Ok(Err(_)) => {
+          if main.is_some() {
+            self.rep.inc("entry_points_disagree");
+          }
+        }
+        Ok(Ok(v)) => {
+          let same = main.as_ref().map_or(false, |m| catch(|| *m == v && m.as_str() == v.as_str()).unwrap_or(false));
+          if !same {
+            self.rep.inc("entry_points_disagree");
+            self.check_did("CoreDID", &format!("@{}", name), Some(s), &v);
+          }
+        }
+      }
+    }
+
+    // ---- DIDUrl
+    let mut url_ok = false;
+    let umain = match catch(|| DIDUrl::parse(s)) {
+      Err(p) => {
+        self.panic("DIDUrl::parse", s, &p);
+        None
+      }
+      Ok(Err(_)) => {
+        self.rep.inc("url_rejected");
+        if rv_url {
+          self.rep.inc("url_rejected_ref_valid");
+        }
+        None
+      }
+      Ok(Ok(u)) => {
+        self.rep.inc("url_accepted");
+        url_ok = true;
+        if self.check_url("", Some(s), &u) {
+          self.rep.inc("url_accepted_clean");
+          match catch(|| serde_json::to_value(&u)) {
+            Ok(Ok(Value::String(j))) if j == s => {}
+            Ok(other) => self.viol("serde-form-differs:DIDUrl", || (format!("serialising DIDUrl {:?} gives {:?}", s, other.map_err(|e| e.to_string())), json!({"input":s}))),
+            Err(p) => self.panic("DIDUrl-serialize", s, &p),
+          }
+          if self.rep.want_sample() && s.contains('?') && s.contains('/') {
+            self.rep.sample(json!({"input":s,"accepted_as":"DIDUrl","path":u.path(),"query":u.query(),"fragment":u.fragment()}));
+          }
+        }
+        Some(u)
+      }
+    };
+    let ualts: [Alt<DIDUrl>; 3] = [
+      ("from_str", |s| s.parse::<DIDUrl>().map_err(|e| e.to_string())),
+      ("try_from_string", |s| DIDUrl::try_from(s.to_string()).map_err(|e| e.to_string())),
+      ("serde", |s| serde_json::from_value::<DIDUrl>(Value::String(s.to_string())).map_err(|e| e.to_string())),
+    ];
+    for (name, f) in &ualts {
+      match catch(|| f(s)) {
+        Err(p) => self.panic(&format!("DIDUrl::{}", name), s, &p),
+        Ok(Err(_)) => {
+          if umain.is_some() {
+            self.rep.inc("entry_points_disagree");
+          }
+        }
+        Ok(Ok(v)) => {
+          let same = umain.as_ref().map_or(false, |m| catch(|| *m == v && m.to_string() == v.to_string()).unwrap_or(false));
+          if !same {
+            self.rep.inc("entry_points_disagree");
+            self.check_url(&format!("@{}", name), Some(s), &v);
+          }
+        }
+      }
+    }
+    // ---- conversions CoreDID -> DIDUrl of a clean DID must give a clean DIDUrl with the same string
+    if let Some(d) = core_clean {
+      match catch(|| (DIDUrl::from(d.clone()), d.to_url(), d.clone().into_url(), DIDUrl::new(d.clone(), None))) {
+        Err(p) => self.panic("CoreDID->DIDUrl", s, &p),
+        Ok((a, b, c, e)) => {
+          for (nm, u) in [("from", &a), ("to_url", &b), ("into_url", &c), ("new", &e)] {
+            let ok = self.check_url("@from_core", None, u);
+            let st = catch(|| u.to_string()).unwrap_or_default();
+            if ok && st != s {
+              self.viol("didurl-from-did-string-differs", || (format!("DIDUrl::{}({:?}).to_string() == {:?}", nm, s, st), json!({"input":s,"route":nm,"to_string":st})));
+            }
+          }
+        }
+      }
+    }
+    if core_ok || url_ok {
+      self.rep.distinct("nontrivial", &format!("str|{}|{}|{}|{}|{}|{}", fam, core_ok as u8, url_ok as u8, rv_did as u8, rv_url as u8, shape(s)));
+    }
+  }
+
+  /// A base value is usable only if the library decomposes it exactly like the reference split
+  /// (anything else has already been reported by `case_string` on the same string).
+  fn clean_url(&mut self, s: &str) -> Option<DIDUrl> {
+    if ref_valid_did_url(s) {
+      if let Ok(Ok(u)) = catch(|| DIDUrl::parse(s)) {
+        if url_matches_ref(&u, s) {
+          return Some(u);
+        }
+      }
+    }
+    self.rep.inc("base_unusable");
+    None
+  }
+  fn clean_did(&mut self, s: &str) -> Option<CoreDID> {
+    if ref_valid_did(s) {
+      if let Ok(Ok(d)) = catch(|| CoreDID::parse(s)) {
+        if snap_did(&d).map_or(false, |sn| sn.s == s && format!("did:{}:{}", sn.method, sn.method_id) == s) {
+          return Some(d);
+        }
+      }
+    }
+    self.rep.inc("base_unusable");
+    None
+  }
+
+  /// Re-parse law for a DIDUrl produced by an operation.
+  fn reparse_url(&mut self, op: &str, u: &DIDUrl, after: &UrlSnap, ctx: Value) {
+    self.rep.inc("reparse_checks");
+    match catch(|| DIDUrl::parse(&after.s)) {
+      Err(p) => self.panic("DIDUrl::parse", &after.s, &p),
+      Ok(Err(e)) => self.viol(&format!("{}-ok-not-reparsable:{}", op, reparse_class(&after.s)), || (format!("{} succeeded, value prints as {:?} which DIDUrl::parse rejects ({})", op, after.s, e), ctx)),
+      Ok(Ok(v)) => {
+        let vs = snap_url(&v).ok();
+        let eq = catch(|| v == *u).unwrap_or(false);
+        if vs.as_ref() != Some(after) || !eq {
+          self.viol(&format!("{}-ok-reparses-different:{}", op, reparse_class(&after.s)), || {
+            (format!("{} succeeded, value prints as {:?} but re-parsing that gives {:?} (==: {})", op, after.s, vs.map(|x| x.s), eq), ctx)
+          });
+        }
+      }
+    }
+  }
+
+  /// which: 0 set_path, 1 set_query, 2 set_fragment
+  fn url_setter_case(&mut self, base: &str, which: u8, seg: Option<&str>) {
+    let Some(mut u) = self.clean_url(base) else { return };
+    self.rep.eval();
+    let op = ["set_path", "set_query", "set_fragment"][which as usize];
+    let Ok(before) = snap_url(&u) else { return };
+    let r = catch(|| match which {
+      0 => u.set_path(seg),
+      1 => u.set_query(seg),
+      _ => u.set_fragment(seg),
+    });
+    let ctx = json!({"base":base,"op":op,"arg":seg});
+    let r = match r {
+      Ok(r) => r,
+      Err(p) => {
+        self.panic(&format!("DIDUrl::{}", op), &format!("{} <- {:?}", base, seg), &p);
+        return;
+      }
+    };
+    let after = match snap_url(&u) {
+      Ok(a) => a,
+      Err(p) => {
+        self.panic(&format!("DIDUrl-accessors@{}", op), &format!("{} <- {:?}", base, seg), &p);
+        return;
+      }
+    };
+    let segcls = match seg {
+      None => "none",
+      Some("") => "empty",
+      Some(x) if x.starts_with(['/', '?', '#']) => "delim",
+      Some(_) => "plain",
+    };
+    self.rep.distinct("nontrivial", &format!("set|{}|{}|{}|{}", op, r.is_ok(), segcls, shape(seg.unwrap_or(""))));
+    match r {
+      Err(_) => {
+        self.rep.inc("setter_refused");
+        if after != before {
+          self.viol(&format!("{}-refused-but-changed", op), || (format!("{}({:?}) on {:?} returned Err but the value is now {:?}", op, seg, base, after.s), ctx));
+        }
+      }
+      Ok(()) => {
+        self.rep.inc("setter_ok");
+        if self.check_url(&format!("@{}", op), None, &u) {
+          self.reparse_url(op, &u, &after, ctx);
+        }
+      }
+    }
+  }
+
+  /// which: 0 set_method_name, 1 set_method_id
+  fn did_setter_case(&mut self, base: &str, which: u8, seg: &str) {
+    let Some(mut d) = self.clean_did(base) else { return };
+    self.rep.eval();
+    let op = ["set_method_name", "set_method_id"][which as usize];
+    let Ok(before) = snap_did(&d) else { return };
+    let r = catch(|| if which == 0 { d.set_method_name(seg) } else { d.set_method_id(seg) });
+    let ctx = json!({"base":base,"op":op,"arg":seg});
+    let r = match r {
+      Ok(r) => r,
+      Err(p) => {
+        self.panic(&format!("CoreDID::{}", op), &format!("{} <- {:?}", base, seg), &p);
+        return;
+      }
+    };
+    let after = match snap_did(&d) {
+      Ok(a) => a,
+      Err(p) => {
+        self.panic(&format!("CoreDID-accessors@{}", op), &format!("{} <- {:?}", base, seg), &p);
+        return;
+      }
+    };
+    self.rep.distinct("nontrivial", &format!("set|{}|{}|{}", op, r.is_ok(), shape(seg)));
+    match r {
+      Err(_) => {
+        self.rep.inc("setter_refused");
+        if after != before {
+          self.viol(&format!("{}-refused-but-changed", op), || (format!("{}({:?}) on {:?} returned Err but the value is now {:?}", op, seg, base, after.s), ctx));
+        }
+      }
+      Ok(()) => {
+        self.rep.inc("setter_ok");
+        if self.check_did("CoreDID", &format!("@{}", op), None, &d) {
+          self.rep.inc("reparse_checks");
+          match catch(|| CoreDID::parse(&after.s)) {
+            Err(p) => self.panic("CoreDID::parse", &after.s, &p),
+            Ok(Err(e)) => self.viol(&format!("{}-ok-not-reparsable", op), || (format!("{}({:?}) on {:?} succeeded, value {:?} is rejected by CoreDID::parse ({})", op, seg, base, after.s, e), ctx)),
+            Ok(Ok(v)) => {
+              let vs = snap_did(&v).ok();
+              if vs.as_ref() != Some(&after) || v != d {
+                self.viol(&format!("{}-ok-reparses-different", op), || (format!("{}({:?}) on {:?}: value {:?} re-parses to {:?}", op, seg, base, after.s, vs.map(|x| x.s)), ctx));
+              }
+            }
+          }
+        }
+      }
+    }
+  }
+
+  fn join_case(&mut self, base: &str, seg: &str) {
+    let Some(u) = self.clean_url(base) else { return };
+    self.rep.eval();
+    let Ok(before) = snap_url(&u) else { return };
+    let plain = before.path.is_none() && before.query.is_none() && before.fragment.is_none();
+    let mut results: Vec<(&str, Result<Result<DIDUrl, identity_did::Error>, PanicRec>)> = vec![("join", catch(|| u.join(seg)))];
+    if plain {
+      results.push(("DID::join", catch(|| u.did().clone().join(seg))));
+    }
+    for (op, r) in results {
+      let ctx = json!({"base":base,"op":op,"segment":seg});
+      match r {
+        Err(p) => self.panic(&format!("DIDUrl::{}", op), &format!("{} + {:?}", base, seg), &p),
+        Ok(Err(_)) => self.rep.inc("join_refused"),
+        Ok(Ok(v)) => {
+          self.rep.inc("join_ok");
+          self.rep.distinct("nontrivial", &format!("join|{}|{}", shape(&base[7.min(base.len())..]), shape(seg)));
+          if !seg.starts_with(['/', '?', '#']) {
+            self.viol("join-accepts-undelimited-segment", || (format!("{:?}.join({:?}) succeeded although the segment does not start with '/', '?' or '#'", base, seg), ctx.clone()));
+          }
+          let clean = self.check_url("@join", None, &v);
+          let Ok(after) = snap_url(&v) else { continue };
+          if after.did != before.did || catch(|| v.did() != u.did()).unwrap_or(true) {
+            self.viol("join-altered-did", || (format!("{:?}.join({:?}) changed the DID part to {:?}", base, seg, after.did), ctx.clone()));
+          }
+          if clean {
+            self.reparse_url("join", &v, &after, ctx);
+          }
+        }
+      }
+    }
+    if snap_url(&u).ok().as_ref() != Some(&before) {
+      self.viol("join-mutated-receiver", || (format!("{:?}.join({:?}) changed the receiver", base, seg), json!({"base":base,"segment":seg})));
+    }
+  }
+}
+
+// ------------------------------------------------------------------------------------------
+// Eq / Ord / Hash coherence
+// ------------------------------------------------------------------------------------------
+
+struct PoolItem {
+  u: DIDUrl,
+  s: String,
+  h: u64,
+  hr: u64,
+  hd: u64,
+  route: &'static str,
+}
+
+impl Ctx {
+  fn pool_add(&mut self, pool: &mut Vec<PoolItem>, route: &'static str, u: Result<Option<DIDUrl>, PanicRec>) {
+    match u {
+      Err(p) => self.panic(&format!("pool-{}", route), "", &p),
+      Ok(None) => {
+        self.rep.inc("pool_route_refused");
+        self.rep.inc(&format!("pool_route_refused_{}", route));
+      }
+      Ok(Some(u)) if !catch(|| u.to_string()).map_or(false, |st| ref_valid_did_url(&st) && url_matches_ref(&u, &st)) => {
+        self.rep.inc("pool_unclean_skipped");
+        if self.rep.get("pool_unclean_skipped") <= 4 {
+          let st = catch(|| u.to_string()).unwrap_or_default();
+          self.rep.note(&format!("pool_unclean_{}", self.rep.get("pool_unclean_skipped")), json!({"route":route,"to_string":st}));
+        }
+      }
+      Ok(Some(u)) => match catch(|| (u.to_string(), hash_of(&u), hash_of(u.url()), hash_of(u.did()))) {
+        Ok((s, h, hr, hd)) => pool.push(PoolItem { u, s, h, hr, hd, route }),
+        Err(p) => self.panic("DIDUrl-hash/to_string", route, &p),
+      },
+    }
+  }
+
+  /// Builds the value for (did, path, query, fragment) through five construction routes.
+  fn pool_combo(&mut self, pool: &mut Vec<PoolItem>, did: &str, path: Option<&str>, q: Option<&str>, f: Option<&str>) {
+    let mut rel = String::new();
+    rel.push_str(path.unwrap_or(""));
+    if let Some(q) = q {
+      rel.push('?');
+      rel.push_str(q);
+    }
+    if let Some(f) = f {
+      rel.push('#');
+      rel.push_str(f);
+    }
+    let full = format!("{}{}", did, rel);
+    if catch(|| DIDUrl::parse(did).is_ok() && DIDUrl::parse(&full).is_ok()).is_err() {
+      self.rep.inc("pool_skipped_parse_panic"); // reported by the string workload
+      return;
+    }
+    self.pool_add(pool, "parse", catch(|| DIDUrl::parse(&full).ok()));
+    self.pool_add(
+      pool,
+      "setters",
+      catch(|| {
+        let mut u = DIDUrl::parse(did).ok()?;
+        u.set_fragment(f).ok()?;
+        u.set_path(path).ok()?;
+        u.set_query(q).ok()?;
+        Some(u)
+      }),
+    );
+    self.pool_add(
+      pool,
+      "new+relative",
+      catch(|| {
+        let mut r = RelativeDIDUrl::new();
+        r.set_path(path).ok()?;
+        let qq = q.map(|q| format!("?{}", q));
+        r.set_query(qq.as_deref()).ok()?;
+        let ff = f.map(|f| format!("#{}", f));
+        r.set_fragment(ff.as_deref()).ok()?;
+        Some(DIDUrl::new(CoreDID::parse(did).ok()?, Some(r)))
+      }),
+    );
+    self.pool_add(
+      pool,
+      "overwrite",
+      catch(|| {
+        let mut u = DIDUrl::parse(format!("{}/zz/y?zz=1#zz", did)).ok()?;
+        u.set_path(Some("")).ok()?;
+        u.set_path(path).ok()?;
+        u.set_query(None).ok()?;
+        u.set_query(q).ok()?;
+        u.set_fragment(Some("other")).ok()?;
+        u.set_fragment(f).ok()?;
+        Some(u)
+      }),
+    );
+    if !rel.is_empty() {
+      self.pool_add(pool, "join", catch(|| DIDUrl::parse(did).ok()?.join(&rel).ok()));
+      self.pool_add(
+        pool,
+        "set_url",
+        catch(|| {
+          let src = DIDUrl::parse(format!("did:other:zz{}", rel)).ok()?;
+          let mut u = DIDUrl::parse(did).ok()?;
+          u.set_url(src.url().clone());
+          Some(u)
+        }),
+      );
+    } else {
+      self.pool_add(pool, "from_core", catch(|| Some(DIDUrl::from(CoreDID::parse(did).ok()?))));
+    }
+  }
+
+  fn pair_case(&mut self, a: &PoolItem, b: &PoolItem) {
+    self.rep.eval();
+    self.rep.inc("pairs_checked");
+    let r = catch(|| {
+      (
+        a.u == b.u,
+        a.u != b.u,
+        a.u.cmp(&b.u),
+        b.u.cmp(&a.u),
+        a.u.partial_cmp(&b.u),
+        a.u.url() == b.u.url(),
+        a.u.url().cmp(b.u.url()),
+        b.u.url().cmp(a.u.url()),
+        a.u.did() == b.u.did(),
+        a.u.did().cmp(b.u.did()),
+      )
+    });
+    let (eq, ne, c, cr, pc, req, rc, rcr, deq, dc) = match r {
+      Ok(x) => x,
+      Err(p) => {
+        self.panic("DIDUrl-eq/cmp", &format!("{} vs {}", a.s, b.s), &p);
+        return;
+      }
+    };
+    let seq = a.s == b.s;
+    if eq {
+      self.rep.inc("pairs_equal");
+      if a.route != b.route {
+        self.rep.inc("pairs_equal_across_routes");
+      }
+    }
+    let ctx = || json!({"a":a.s,"a_route":a.route,"b":b.s,"b_route":b.route,"eq":eq,"cmp":format!("{:?}",c),"hash_a":a.h,"hash_b":b.h});
+    if eq == ne {
+      self.viol("eq-vs-ne", || (format!("== and != agree on {:?} / {:?}", a.s, b.s), ctx()));
+    }
+    if eq != (c == Ordering::Equal) {
+      self.viol("eq-vs-ord-disagree:DIDUrl", || (format!("{:?} == {:?} is {} but cmp is {:?}", a.s, b.s, eq, c), ctx()));
+    }
+    if pc != Some(c) {
+      self.viol("partial_cmp-vs-cmp:DIDUrl", || (format!("partial_cmp {:?} vs cmp {:?} on {:?} / {:?}", pc, c, a.s, b.s), ctx()));
+    }
+    if c != cr.reverse() {
+      self.viol("ord-not-antisymmetric:DIDUrl", || (format!("cmp(a,b)={:?} cmp(b,a)={:?} on {:?} / {:?}", c, cr, a.s, b.s), ctx()));
+    }
+    if eq && a.h != b.h {
+      self.viol("eq-but-hash-differs:DIDUrl", || (format!("{:?} == {:?} but their hashes differ", a.s, b.s), ctx()));
+    }
+    if eq != seq {
+      self.viol("eq-vs-string-disagree:DIDUrl", || (format!("{:?} ({}) == {:?} ({}) is {} but string equality is {}", a.s, a.route, b.s, b.route, eq, seq), ctx()));
+    }
+    // RelativeDIDUrl
+    if req != (rc == Ordering::Equal) || rc != rcr.reverse() {
+      self.viol("eq-vs-ord-disagree:RelativeDIDUrl", || (format!("relative parts of {:?} / {:?}: == {} cmp {:?} rev {:?}", a.s, b.s, req, rc, rcr), ctx()));
+    }
+    if req && a.hr != b.hr {
+      self.viol("eq-but-hash-differs:RelativeDIDUrl", || (format!("relative parts of {:?} / {:?} equal but hashes differ", a.s, b.s), ctx()));
+    }
+    // CoreDID
+    if deq != (dc == Ordering::Equal) {
+      self.viol("eq-vs-ord-disagree:CoreDID", || (format!("did parts of {:?} / {:?}: == {} cmp {:?}", a.s, b.s, deq, dc), ctx()));
+    }
+    if deq && a.hd != b.hd {
+      self.viol("eq-but-hash-differs:CoreDID", || (format!("did parts of {:?} / {:?} equal but hashes differ", a.s, b.s), ctx()));
+    }
+    // whole value equal <=> both parts equal
+    if eq != (deq && req) {
+      self.viol("eq-vs-parts-disagree:DIDUrl", || (format!("{:?} / {:?}: == {} but did== {} and url== {}", a.s, b.s, eq, deq, req), ctx()));
+    }
+  }
+
+  fn triple_case(&mut self, a: &PoolItem, b: &PoolItem, c: &PoolItem) {
+    self.rep.eval();
+    self.rep.inc("triples_checked");
+    let r = catch(|| (a.u.cmp(&b.u), b.u.cmp(&c.u), a.u.cmp(&c.u)));
+    if let Ok((ab, bc, ac)) = r {
+      if ab != Ordering::Greater && bc != Ordering::Greater && ac == Ordering::Greater {
+        self.viol("ord-not-transitive:DIDUrl", || (format!("{:?} <= {:?} <= {:?} but first > third", a.s, b.s, c.s), json!({"a":a.s,"b":b.s,"c":c.s})));
+      }
+    }
+  }
+
+  // ----------------------------------------------------------------------------------------
+  // did:jwk
+  // ----------------------------------------------------------------------------------------
+  fn jwk_case(&mut self, s: &str, expect_json: Option<&Value>) {
+    self.rep.eval();
+    let main = match catch(|| DIDJwk::parse(s)) {
+      Err(p) => {
+        self.panic("DIDJwk::parse", s, &p);
+        return;
+      }
+      Ok(r) => r.ok(),
+    };
+    let alts: [(&str, fn(&str) -> Option<DIDJwk>); 4] = [
+      ("from_str", |s| s.parse::<DIDJwk>().ok()),
+      ("try_from_str", |s| DIDJwk::try_from(s).ok()),
+      ("try_from_core", |s| CoreDID::parse(s).ok().and_then(|c| DIDJwk::try_from(c).ok())),
+      ("serde", |s| serde_json::from_value::<DIDJwk>(Value::String(s.to_string())).ok()),
+    ];
+    let mut vals: Vec<(String, DIDJwk)> = Vec::new();
+    if let Some(m) = &main {
+      vals.push((String::new(), m.clone()));
+    }
+    for (name, f) in alts {
+      match catch(|| f(s)) {
+        Err(p) => self.panic(&format!("DIDJwk::{}", name), s, &p),
+        Ok(None) => {}
+        Ok(Some(v)) => {
+          if main.as_ref() != Some(&v) {
+            self.rep.inc("entry_points_disagree");
+            vals.push((format!("@{}", name), v));
+          }
+        }
+      }
+    }
+    if vals.is_empty() {
+      self.rep.inc("jwk_rejected");
+      if expect_json.is_some() {
+        self.rep.inc("jwk_rejected_ref_valid");
+      }
+      return;
+    }
+    self.rep.inc("jwk_accepted");
+    self.rep.distinct("nontrivial", &format!("jwk|{}|{}", expect_json.is_some(), shape(s.rsplit(|c: char| c.is_ascii_alphanumeric()).next().unwrap_or(""))));
+    for (origin, j) in vals {
+      let core: &CoreDID = j.as_ref();
+      let clean = self.check_did("DIDJwk", &origin, Some(s), core);
+      match catch(|| (j.to_string(), String::from(j.clone()), j.method().to_string(), serde_json::to_value(&j).ok())) {
+        Err(p) => self.panic("DIDJwk-accessors", s, &p),
+        Ok((disp, into, method, ser)) => {
+          if clean && (disp != s || into != s || ser != Some(Value::String(s.to_string()))) {
+            self.viol("string-form-differs:DIDJwk", || (format!("DIDJwk::parse({:?}) prints {:?}/{:?}/{:?}", s, disp, into, ser), json!({"input":s})));
+          }
+          if clean && method != "jwk" {
+            self.viol("didjwk-method-not-jwk", || (format!("DIDJwk {:?} has method {:?}", s, method), json!({"input":s})));
+          }
+        }
+      }
+      match catch(|| j.jwk()) {
+        Err(p) => self.panic("DIDJwk::jwk", s, &p),
+        Ok(k) => {
+          self.rep.inc("jwk_decoded");
+          if let (true, Some(want)) = (clean, expect_json) {
+            let got = serde_json::to_value(&k).ok();
+            if got.as_ref() != Some(want) {
+              self.viol("didjwk-jwk-differs", || (format!("DIDJwk::parse({:?}).jwk() = {:?}, encoded JWK was {}", s, got, want), json!({"input":s})));
+            }
+          }
+        }
+      }
+    }
+  }
+}
+
+// ------------------------------------------------------------------------------------------
+// Generators
+// ------------------------------------------------------------------------------------------
+
+const ALPHA: [&str; 14] = ["a", "A", "1", ":", "%", "/", "?", "#", ".", "-", " ", "\n", "é", "{"];
+const ADV: [&str; 52] = [
+  "a", "z", "A", "F", "G", "0", "9", ":", "%", "/", "?", "#", ".", "-", "_", "~", "!", "$", "&", "'", "(", ")", "*", "+", ",", ";", "=", "@", "[", "]", "{", "}", "|",
+  "\\", "^", "`", "\"", "<", ">", " ", "\t", "\r", "\n", "\0", "\x7f", "é", "€", "𝄞", "\u{a0}", "%41", "%4", "%zz",
+];
+
+fn nth_string(alpha: &[&str], len: u32, mut idx: u64) -> String {
+  let mut s = String::new();
+  for _ in 0..len {
+    s.push_str(alpha[(idx % alpha.len() as u64) as usize]);
+    idx /= alpha.len() as u64;
+  }
+  s
+}
+
+fn gen_chars(rng: &mut Rng, n: usize, set: &[u8], pct: bool) -> String {
+  let mut s = String::new();
+  for _ in 0..n {
+    if pct && rng.chance(1, 8) {
+      s.push_str(&format!("%{:02X}", rng.below(256)));
+    } else {
+      s.push(*rng.pick(set) as char);
+    }
+  }
+  s
+}
+const IDCH: &[u8] = b"abcdefghijklmnopqrstuvwxyzABCDEFGHIJKLMNOPQRSTUVWXYZ0123456789.-_";
+const PCH: &[u8] = b"abcxyzABCXYZ0189-._~!$&'()*+,;=:@";
+const QCH: &[u8] = b"abcxyzABCXYZ0189-._~!$&'()*+,;=:@/?";
+
+fn gen_valid_did(rng: &mut Rng) -> String {
+  let m = { let n__ = 1 + rng.usize(6); gen_chars(rng, n__, b"abcdefghijklmnopqrstuvwxyz0123456789", false) };
+  let mut id = String::new();
+  for _ in 0..rng.usize(3) {
+    id.push_str(&{ let n__ = rng.usize(5); gen_chars(rng, n__, IDCH, true) });
+    id.push(':');
+  }
+  id.push_str(&{ let big__ = rng.chance(1, 10); let n__ = 1 + rng.usize(if big__ { 60 } else { 12 }); gen_chars(rng, n__, IDCH, true) });
+  format!("did:{}:{}", m, id)
+}
+fn gen_valid_rel(rng: &mut Rng) -> String {
+  let mut s = String::new();
+  if rng.bool() {
+    for _ in 0..1 + rng.usize(3) {
+      s.push('/');
+      s.push_str(&{ let n__ = rng.usize(6); gen_chars(rng, n__, PCH, true) });
+    }
+  }
+  if rng.chance(2, 5) {
+    s.push('?');
+    s.push_str(&{ let n__ = rng.usize(10); gen_chars(rng, n__, QCH, true) });
+  }
+  if rng.chance(2, 5) {
+    s.push('#');
+    s.push_str(&{ let n__ = rng.usize(10); gen_chars(rng, n__, QCH, true) });
+  }
+  s
+}
+fn mutate(rng: &mut Rng, s: &str) -> String {
+  let mut v: Vec<char> = s.chars().collect();
+  for _ in 0..1 + rng.usize(3) {
+    let pos = rng.usize(v.len() + 1);
+    match rng.below(6) {
+      0 | 1 => {
+        let ins: Vec<char> = rng.pick(&ADV).chars().collect();
+        for (k, c) in ins.into_iter().enumerate() {
+          v.insert((pos + k).min(v.len()), c);
+        }
+      }
+      2 => {
+        if pos < v.len() {
+          v.remove(pos);
+        }
+      }
+      3 => {
+        if pos < v.len() {
+          v[pos] = rng.pick(&ADV).chars().next().unwrap();
+        }
+      }
+      4 => {
+        // duplicate a delimiter
+        if let Some(i) = v.iter().position(|c| matches!(c, '?' | '#' | '/' | ':' | '%')) {
+          let j = v.iter().rposition(|c| matches!(c, '?' | '#' | '/' | ':' | '%')).unwrap();
+          let k = if rng.bool() { i } else { j };
+          let c = v[k];
+          v.insert(k, c);
+        }
+      }
+      _ => v.truncate(pos),
+    }
+  }
+  v.into_iter().collect()
+}
+
+fn hand_segments() -> Vec<String> {
+  let v = [
+    "", "/", "?", "#", "/a", "a", "?a", "#a", "??a", "##a", "?#", "/?#", "/a?b#c", "//", "/a//b", "/.", "/..", "/../x", "/a/../b", "/./a", "..", ".", "a/b", "/a b", "/a\n", " /a", "/a ", "?a b",
+    "#a b", "?a#b", "#a#b", "#a?b", "?a?b", "/a?b", "/a#b", "?a/b", "#a/b", "/%41", "/%4", "/%", "/%zz", "/%+1", "/%41{", "?%41", "?%4", "?%+1", "?%41{", "#%41", "#%4", "#%+1", "#%41{", "%41", "%4", "%",
+    "%+f", "%-1", "% 1", "a%4", "a%41{b", "a%41/b", "a%41#b", "a%41?b", "a:", ":a", "a::b", ":", "::", "a.b-c_d", "A", "é", "/é", "?é", "#é", "{", "/{", "?{", "#{", "a{", "did:x:y", "/did:x:y", "did:m:a",
+    "/a:b@c", "?a=1&b=2", "?a=1&b=2#k", "#key-1", "/p?", "/p#", "?q#", "?", "/~!$&'()*+,;=@", "?~!$&'()*+,;=@/?", "#~!$&'()*+,;=@/?", "/[", "/]", "/|", "/\\", "/^", "/`", "/\"", "/<", "/>", "?[", "#[",
+    "\0", "/\0", "/a\0", "\t", "/\t", "\u{a0}", "/\u{a0}", "/€", "/𝄞", "?𝄞", "#𝄞", "𝄞", "/a%F0%9D%84%9E", "abc", "ABC", "123", "a_b", "a-b", "a.b", "a~b", "a+b", "a@b", "a b", "a\nb", "1%", "1%%", "%%41",
+    "%4%41", "%41%4", "%g1", "%1g", "%é", "/%é", "?%é1", "#%1é",
+  ];
+  v.iter().map(|s| s.to_string()).collect()
+}
+
+fn main() {
+  let args = Args::parse();
+  let scale = args.extra_u64("scale", 1000).max(1);
+  let sc = |n: u64| -> u64 { (n * scale / 1000).max(1) };
+  let stride = ((1000 + scale - 1) / scale).max(1);
+  let thorough = args.thorough;
+  let mut cx = Ctx { rep: Report::new("C10"), seen: BTreeMap::new() };
+  cx.rep.rule(
+    "cases = (a) every string over the 14-symbol alphabet {a A 1 : % / ? # . - SP LF é {} after 'did:m:' and after 'did:' up to the tier's length bound, \
+     a %XY grid over 98 characters in every component, whitespace/control characters around valid strings, seeded random valid DID URLs and mutations of them, \
+     each pushed through every construction path of CoreDID and DIDUrl; (b) (clean value, segment) pairs for set_path/set_query/set_fragment/set_method_name/set_method_id/join; \
+     (c) pairs/triples of DIDUrl values built through six routes for Eq/Ord/Hash; (d) did:jwk strings. \
+     non-trivial = accepted by at least one type (classed by family, acceptance vector, reference validity and coarse shape), or an executed setter/join (classed by op, outcome, segment shape); \
+     exhaustive enumerations are additionally counted exactly (distinct_exact = accepted strings distinct by construction)",
+  );
+  let mut rng = args.rng(10);
+  let mut k: u64 = 0; // global enumeration index for sharding
+
+  // ---- A. exhaustive strings
+  let fams: [(&str, u32); 2] = [("did:m:", if thorough { 6 } else { 5 }), ("did:", if thorough { 6 } else { 4 })];
+  for (prefix, maxlen) in fams {
+    for len in 0..=maxlen {
+      let total = 14u64.pow(len);
+      let before = cx.rep.get("core_accepted") + cx.rep.get("url_accepted");
+      let mut idx = 0u64;
+      while idx < total {
+        k += 1;
+        if args.mine(k) {
+          let s = format!("{}{}", prefix, nth_string(&ALPHA, len, idx));
+          cx.case_string(prefix, &s);
+          cx.rep.inc("exhaustive_strings");
+        }
+        idx += if len > 2 { stride } else { 1 };
+      }
+      let after = cx.rep.get("core_accepted") + cx.rep.get("url_accepted");
+      cx.rep.count("distinct_exact", after - before);
+    }
+  }
+
+  // ---- B. percent-escape grid
+  let mut c1: Vec<String> = (0x20u8..0x7f).map(|b| (b as char).to_string()).collect();
+  c1.extend(["\n".to_string(), "\0".to_string(), "é".to_string()]);
+  let gstride = if scale >= 1000 { 1 } else { stride.min(97) };
+  let mut gi = 0u64;
+  for x in &c1 {
+    for y in &c1 {
+      gi += 1;
+      k += 1;
+      if gi % gstride != 0 || !args.mine(k) {
+        continue;
+      }
+      for t in [
+        format!("did:m:a%{}{}", x, y),
+        format!("did:m:%{}{}b", x, y),
+        format!("did:m:a/p%{}{}", x, y),
+        format!("did:m:a?q%{}{}", x, y),
+        format!("did:m:a#f%{}{}z", x, y),
+      ] {
+        cx.case_string("pct", &t);
+        cx.rep.inc("pct_grid_strings");
+      }
+      if thorough || (x.len() == 1 && y.len() == 1 && b"0aAfFgG+- %:9".contains(&x.as_bytes()[0]) && b"0aAfFgG+- %:9".contains(&y.as_bytes()[0])) {
+        let seg = format!("%{}{}", x, y);
+        cx.did_setter_case("did:m:a", 1, &seg);
+        cx.did_setter_case("did:m:a", 1, &format!("b{}c", seg));
+        cx.url_setter_case("did:m:a", 0, Some(&format!("/{}", seg)));
+        cx.url_setter_case("did:m:a", 1, Some(&seg));
+        cx.url_setter_case("did:m:a", 2, Some(&seg));
+      }
+    }
+    k += 1;
+    if args.mine(k) {
+      for t in [
+        format!("did:m:a%41{}", x),
+        format!("did:m:a%41{}b", x),
+        format!("did:m:a%4{}", x),
+        format!("did:m:a%{}", x),
+        format!("did:m:a/%41{}", x),
+        format!("did:m:a?%41{}", x),
+        format!("did:m:a#%41{}", x),
+        format!("did:m{}:a", x),
+        format!("did:{}:a", x),
+        format!("did:m:a{}", x),
+        format!("did:m:{}", x),
+        format!("did:m:a{}b", x),
+        format!("did{}m:a", x),
+        format!("{}did:m:a", x),
+      ] {
+        cx.case_string("single", &t);
+      }
+    }
+  }
+
+  // ---- C. whitespace / control characters around valid strings
+  let ws = ["", " ", "\n", "\t", "\r", "\0", "\x7f", "\x0b", "\x0c", "\x1f", "\u{a0}", "\u{2003}", "\u{feff}", " \n", "\r\n", "  "];
+  let cores = ["did:example:123", "did:m:a/p", "did:m:a?q", "did:m:a#f", "did:m:a/p?q#f", "did:m:a%41", "did:m:a:b", "did:m:a??q", "did:m:a?", "did:m:a#", "did:m:a/"];
+  for core in cores {
+    for pre in ws {
+      for post in ws {
+        k += 1;
+        if args.mine(k) {
+          cx.case_string("ws", &format!("{}{}{}", pre, core, post));
+          cx.rep.inc("whitespace_strings");
+        }
+      }
+    }
+  }
+
+  // ---- D. seeded random: valid DID URLs and mutations
+  let n_random = sc(if thorough { 4_000_000 } else { 160_000 }) / args.nshards.max(1);
+  let mut valid_pool: Vec<String> = Vec::new();
+  for i in 0..n_random.max(20) {
+    let did = gen_valid_did(&mut rng);
+    let full = format!("{}{}", did, gen_valid_rel(&mut rng));
+    let s = match rng.below(5) {
+      0 => did.clone(),
+      1 => full.clone(),
+      2 => mutate(&mut rng, &did),
+      _ => mutate(&mut rng, &full),
+    };
+    cx.case_string("rnd", &s);
+    cx.rep.inc("random_strings");
+    if i < 400 {
+      valid_pool.push(full);
+    }
+  }
+
+  // ---- E/F. setters and join over (clean value, segment)
+  let mut segs = hand_segments();
+  let mut alpha15: Vec<&str> = ALPHA.to_vec();
+  alpha15.push("+");
+  for len in 1..=(if thorough { 3 } else { 2 }) {
+    for idx in 0..15u64.pow(len) {
+      if len > 2 && idx % stride != 0 {
+        continue;
+      }
+      segs.push(nth_string(&alpha15, len, idx));
+    }
+  }
+  // random segments must be identical in every shard: use a shard-independent stream
+  let mut srng = Rng::new(args.seed, 0xC10);
+  for _ in 0..sc(if thorough { 3000 } else { 300 }) {
+    let base = match srng.below(4) {
+      0 => gen_valid_rel(&mut srng),
+      1 => { let n__ = 1 + srng.usize(8); gen_chars(&mut srng, n__, IDCH, true) },
+      2 => {
+        let r = gen_valid_rel(&mut srng);
+        mutate(&mut srng, &r)
+      }
+      _ => {
+        let r = { let n__ = 1 + srng.usize(8); gen_chars(&mut srng, n__, IDCH, true) };
+        mutate(&mut srng, &r)
+      }
+    };
+    segs.push(base);
+  }
+  let url_bases = [
+    "did:m:a",
+    "did:m:a/p",
+    "did:m:a?q",
+    "did:m:a#f",
+    "did:m:a/p?q#f",
+    "did:example:123:x%41y/a/b?x=1&y=2#key-1",
+    "did:m:a/p#f",
+    "did:m:a?q#f",
+  ];
+  let did_bases = ["did:m:a", "did:example:123:x%41y", "did:m1:a.b-c_d"];
+  for seg in &segs {
+    for base in url_bases {
+      k += 1;
+      if !args.mine(k) {
+        continue;
+      }
+      for which in 0..3u8 {
+        cx.url_setter_case(base, which, Some(seg));
+      }
+      cx.join_case(base, seg);
+    }
+    for base in did_bases {
+      k += 1;
+      if !args.mine(k) {
+        continue;
+      }
+      cx.did_setter_case(base, 0, seg);
+      cx.did_setter_case(base, 1, seg);
+    }
+  }
+  for base in url_bases {
+    k += 1;
+    if args.mine(k) {
+      for which in 0..3u8 {
+        cx.url_setter_case(base, which, None);
+      }
+    }
+  }
+  cx.rep.note("segments", json!(segs.len()));
+
+  // ---- G. Eq / Ord / Hash
+  let mut pool: Vec<PoolItem> = Vec::new();
+  let dids: &[&str] = if thorough { &["did:m:a", "did:m:b", "did:n:a", "did:m:a:b", "did:m:a%41b", "did:example:123", "did:m:A"] } else { &["did:m:a", "did:m:b", "did:n:a%41b"] };
+  let paths: &[Option<&str>] = if thorough { &[None, Some("/"), Some("/a"), Some("/a/b"), Some("/b"), Some("/a%2F")] } else { &[None, Some("/"), Some("/a"), Some("/b")] };
+  let qs: &[Option<&str>] = if thorough { &[None, Some("a"), Some("b"), Some("a=1&b=2")] } else { &[None, Some("a"), Some("b")] };
+  let fs: &[Option<&str>] = if thorough { &[None, Some("a"), Some("b"), Some("a?b/c")] } else { &[None, Some("a"), Some("b")] };
+  for d in dids {
+    for p in paths {
+      for q in qs {
+        for f in fs {
+          cx.pool_combo(&mut pool, d, *p, *q, *f);
+        }
+      }
+    }
+  }
+  // random valid ones, same in every shard
+  for _ in 0..(if thorough { 300 } else { 60 }) {
+    let did = gen_valid_did(&mut srng);
+    let full = format!("{}{}", did, gen_valid_rel(&mut srng));
+    if catch(|| DIDUrl::parse(&full).is_ok()).is_err() {
+      cx.rep.inc("pool_skipped_parse_panic");
+      continue;
+    }
+    cx.pool_add(&mut pool, "parse", catch(|| DIDUrl::parse(&full).ok()));
+    cx.pool_add(&mut pool, "parse2", catch(|| full.parse::<DIDUrl>().ok()));
+  }
+  let keep = (pool.len() as u64 * scale.min(1000) / 1000).max(60.min(pool.len() as u64)) as usize;
+  if keep < pool.len() {
+    // keep a deterministic spread (every route and equal groups stay adjacent)
+    pool.truncate(keep);
+  }
+  cx.rep.note("eq_pool", json!(pool.len()));
+  for i in 0..pool.len() {
+    if !args.mine(i as u64) {
+      continue;
+    }
+    for j in 0..pool.len() {
+      cx.pair_case(&pool[i], &pool[j]);
+    }
+  }
+  let n_tri = sc(if thorough { 2_000_000 } else { 100_000 }) / args.nshards.max(1);
+  if pool.len() >= 3 {
+    for _ in 0..n_tri {
+      let (a, b, c) = (rng.usize(pool.len()), rng.usize(pool.len()), rng.usize(pool.len()));
+      cx.triple_case(&pool[a], &pool[b], &pool[c]);
+    }
+  }
+
+  // ---- H. did:jwk
+  let mut jk = 0u64;
+  for (label, alg) in [(1u64, vh::keys::Alg::EdDSA), (2, vh::keys::Alg::ES256), (3, vh::keys::Alg::ES256K)] {
+    let key = vh::keys::Key::new(alg, label);
+    let jj = key.public_jwk_json(None);
+    let want: Value = serde_json::from_str(&jj).expect("own JWK JSON");
+    let b64 = vh::b64::url_encode(jj.as_bytes());
+    let good = format!("did:jwk:{}", b64);
+    if args.shard == 0 {
+      cx.jwk_case(&good, Some(&want));
+      cx.case_string("jwk", &good);
+    }
+    let mut variants: Vec<String> = Vec::new();
+    for len in 1..=2u32 {
+      for idx in 0..14u64.pow(len) {
+        variants.push(format!("{}{}", good, nth_string(&ALPHA, len, idx)));
+      }
+    }
+    for w in ws {
+      variants.push(format!("{}{}", w, good));
+      variants.push(format!("{}{}", good, w));
+    }
+    variants.push(format!("did:jwK:{}", b64));
+    variants.push(format!("did:jwk:{}", &b64[..b64.len() - 1]));
+    variants.push(format!("did:jwk:{}", &b64[..b64.len() / 2]));
+    variants.push(format!("did:jwk:{}=", b64));
+    variants.push(format!("did:jwk:{}", vh::b64::url_encode(b"{\"a\":1}")));
+    variants.push(format!("did:jwk:{}", vh::b64::url_encode(b"[]")));
+    variants.push(format!("did:jwk:{}", vh::b64::url_encode(b"not json")));
+    variants.push("did:jwk:".to_string());
+    variants.push(format!("did:key:{}", b64));
+    variants.push(format!("did:jwk:{}", vh::b64::url_encode(key.private_jwk_json(None).as_bytes())));
+    for _ in 0..sc(if thorough { 2000 } else { 200 }) {
+      variants.push(mutate(&mut srng, &good));
+    }
+    for v in variants {
+      jk += 1;
+      if args.mine(jk) {
+        cx.jwk_case(&v, None);
+      }
+    }
+  }
+
+  cx.rep.note("valid_pool_sample", json!(valid_pool.iter().take(3).collect::<Vec<_>>()));
+  cx.rep.finish();
 }
